@@ -551,12 +551,16 @@ def use_sites(DECORATORS=DECORATORS):
                             nm = base.id if _is_name(base) else (base.attr if isinstance(base, ast.Attribute) else None)
                             real = names.get(nm) or (nm if isinstance(base, ast.Attribute) and nm in DECORATORS else None)
                             if real:
-                                hit = (real, "call" if isinstance(d, ast.Call) else "bare", ast.unparse(d))
+                                dargs = ([["#%d" % i, ast.unparse(a)] for i, a in enumerate(d.args)]
+                                         + [[k.arg or "**", ast.unparse(k.value)] for k in d.keywords]) if isinstance(d, ast.Call) else []
+                                if real.endswith("(...)"):  # a module-level name bound to a configured decorator
+                                    dargs = [["(configured elsewhere)", nm]] + dargs
+                                hit = (real, "call" if isinstance(d, ast.Call) else "bare", ast.unparse(d), dargs)
                             else:
                                 others.append(ast.unparse(d))
                         if hit and not (rel == "orso.tools" and ch.name in DECORATORS):
                             out.append({"module": rel, "qualname": ".".join(path_ + [ch.name]), "decorator": hit[0], "form": hit[1],
-                                        "text": hit[2], "others": others, "nested": nested, "lineno": ch.lineno})
+                                        "text": hit[2], "args": hit[3], "others": others, "nested": nested, "lineno": ch.lineno})
                         visit(ch, path_ + [ch.name], True)
                     else:
                         visit(ch, path_, nested)
@@ -599,7 +603,7 @@ def site_facts(sites):
         reads = sorted({n.attr for n in ast.walk(fn) if isinstance(n, ast.Attribute) and _is_name(n.value, first)}) if cls is not None and first else []
         defs = {b.name for b in cls.body if isinstance(b, ast.FunctionDef)} if cls is not None else set()
         out.append({"name": st["module"] + "." + st["qualname"], "decorator": st["decorator"], "arity": arity,
-                    "varargs": bool(a.vararg or a.kwarg), "is_property": "property" in st.get("others", []),
+                    "varargs": bool(a.vararg or a.kwarg), "decorator_args": [list(x) for x in st.get("args", [])], "is_property": "property" in st.get("others", []),
                     "receiver_defines_eq": "__eq__" in defs, "receiver_defines_hash": "__hash__" in defs, "reads_self_state": reads})
     return out
 
@@ -648,9 +652,10 @@ def generate(o):
     facts = o.item("c19.site_facts", lambda: site_facts(use_sites(DECORATORS + FUNCTOOLS_CACHES)), PINNED_SITE_FACTS)
     b = lambda v: "true" if v else "false"
     text += "/-- one decorated use site of a cache in the orso package -/\n"
-    text += "structure Site where\n  name : String\n  decorator : String\n  arity : Nat\n  isProperty : Bool\n  receiverDefinesEq : Bool\n  receiverDefinesHash : Bool\n  readsSelfState : List String\n  deriving Repr, DecidableEq\n"
-    text += "/-- every decorated use site found by parsing orso/**/*.py (the decorators' own definitions excluded) -/\n"
-    text += "def useSites : List Site := %s\n" % lean_list(facts, lambda f: "{ name := %s, decorator := %s, arity := %d, isProperty := %s, receiverDefinesEq := %s, receiverDefinesHash := %s, readsSelfState := %s }" % (
-        lean_str(f["name"]), lean_str(f["decorator"]), f["arity"], b(f["is_property"]), b(f["receiver_defines_eq"]), b(f["receiver_defines_hash"]), lean_list(f["reads_self_state"], lean_str)))
+    text += "structure Site where\n  name : String\n  decorator : String\n  arity : Nat\n  isProperty : Bool\n  receiverDefinesEq : Bool\n  receiverDefinesHash : Bool\n  readsSelfState : List String\n  decoratorArgs : List (String × String)\n  deriving Repr, DecidableEq\n"
+    text += "/-- every decorated use site found by parsing orso/**/*.py (the decorators' own definitions excluded); `decoratorArgs`: the arguments the decorator is CALLED with at the site, as (keyword or #position, source text), [] for the bare form -/\n"
+    text += "def useSites : List Site := %s\n" % lean_list(facts, lambda f: "{ name := %s, decorator := %s, arity := %d, isProperty := %s, receiverDefinesEq := %s, receiverDefinesHash := %s, readsSelfState := %s, decoratorArgs := %s }" % (
+        lean_str(f["name"]), lean_str(f["decorator"]), f["arity"], b(f["is_property"]), b(f["receiver_defines_eq"]), b(f["receiver_defines_hash"]), lean_list(f["reads_self_state"], lean_str),
+        lean_list(f.get("decorator_args", []), lambda a: "(%s, %s)" % (lean_str(a[0]), lean_str(a[1])))))
     text += "end Gen.Cache\n"
     o.files["Cache.lean"] = text
